@@ -66,6 +66,9 @@ def routes_for(opt):
     out = ['actual']                         # api._convert_actual(fn, ProgramContext(options))
     if i:
         out.append('converted_call')         # api.converted_call(fn, args, None, options=...)
+        out.append('converted_call@D')       # ... issued while the thread's conversion status is DISABLED
+        out.append('converted_call@E')       # ... ENABLED
+        out.append('converted_call@U')       # ... UNSPECIFIED (explicitly)
     if u and i:
         out.append('to_graph')               # malt.to_graph(fn, recursive, features)
     if i:
@@ -176,6 +179,23 @@ def make(k):
         nonlocal k
         k = v
     return scale, setk
+''',
+    # functions sharing one code object whose CALLEE differs in kind: an autograph artifact
+    # (do_not_convert-ed) for one, an ordinary convertible function for the other (closure and global)
+    'callee': '''
+G = {g}
+def plain(x):
+    if x > 0:
+        x = x + {c}
+    return x + probe()
+def other(x):
+    return x * 2 + probe()
+def make(h):
+    def f(x):
+        return h(x) + G
+    return f
+def fg(x):
+    return hg(x) + G + {d}
 ''',
     # not convertible (for/else): transform_ast raises, nothing is cached, every request retries
     'broken': '''
@@ -323,6 +343,15 @@ class Group(object):
             out += [Fn(ns['mk'](2), [(3,)], 'lambda k=2'), Fn(ns['mk'](5), [(3,)], 'lambda k=5')]
         elif kind == 'siblings':
             self.maker = ns['make']
+        elif kind == 'callee':
+            raw = malt.experimental.do_not_convert(ns['other'])
+            ns['hg'] = raw
+            g2 = dict(ns); g2['hg'] = ns['plain']
+            fg2 = types.FunctionType(ns['fg'].__code__, g2, 'fg')
+            out += [Fn(ns['make'](raw), [(3,), (0,)], 'callee(closure) = do_not_convert artifact'),
+                    Fn(ns['make'](ns['plain']), [(3,), (0,)], 'callee(closure) = plain convertible function'),
+                    Fn(ns['fg'], [(3,), (0,)], 'callee(global) = do_not_convert artifact'),
+                    Fn(fg2, [(3,), (0,)], 'callee(global) = plain convertible function')]
         elif kind == 'broken':
             out += [Fn(ns['mkb'](1), [(3,), (1,)], 'unconvertible k=1'), Fn(ns['mkb'](4), [(3,), (9,)], 'unconvertible k=4')]
         self.fns = out
@@ -394,6 +423,8 @@ class Recorder(object):
         self._modtok = {}
         self.hook = None               # callable(kind, thread index, result), called outside the mutex
         self.last = {}                 # thread index -> kind of its last logged event
+        self.allow_ok = {}             # (id(function), opt tuple) -> (weakref, reason): legitimate allowlist-cache entries
+        self.allow_bad = []            # allowlist-cache entries recorded for a context-dependent decision
         self.pending_x = {}            # thread index -> request whose conversion is running (event not yet logged)
 
     # ---- threads
@@ -413,6 +444,12 @@ class Recorder(object):
         x = r.random()
         if x < self.yield_p:
             time.sleep(0 if x < self.yield_p * 0.7 else r.random() * 3e-4)
+
+    # ---- allowlist cache (conversion._ALLOWLIST_CACHE): audited, not modelled
+    def allowed(self, fn, opt):
+        f = getattr(fn, '__func__', fn)
+        e = self.allow_ok.get((id(f), opt))
+        return e is not None and e[0]() is f
 
     # ---- serials
     def code_serial(self, c):
@@ -838,7 +875,7 @@ class Installed(object):
             # the options actually requested (not get_caching_key's view of them)
             opt = _safe_opt(getattr(user_context, 'options', None))
             code = getattr(fn, '__code__', None)
-            req = {'t': t, 'opt': opt, 'outcome': None}
+            req = {'t': t, 'opt': opt, 'outcome': None, 'fn_id': id(getattr(fn, '__func__', fn))}
             with rec.mutex:
                 rec.emit(rec.scan())
                 if depth:
@@ -866,6 +903,7 @@ class Installed(object):
             finally:
                 rec.tl.depth = depth
                 rec.tl.req = None
+                rec.tl.last_req = req
 
         def transform_ast(node, ctx):
             req = getattr(rec.tl, 'req', None)
@@ -899,11 +937,57 @@ class Installed(object):
         transpiler._PythonFnFactory.instantiate = instantiate
         api._TRANSPILER = tr
         self.tr = tr
+
+        # the second cache consulted by converted_call: function object -> {options: True} ("run as-is").
+        # Fresh per history; every insertion is audited: it must record a context-INDEPENDENT decision.
+        from malt.impl import conversion
+        from malt.pyct import cache as cache_mod
+        from malt.core import ag_ctx
+        self.conversion = conversion
+        self.old_allow = conversion._ALLOWLIST_CACHE
+        conversion._ALLOWLIST_CACHE = cache_mod.UnboundInstanceCache()
+        self.orig_cache_allowlisted = orig_ca = conversion.cache_allowlisted
+
+        def cache_allowlisted(entity, options):
+            try:
+                f = getattr(entity, '__func__', entity)
+                opt = _safe_opt(options)
+                last = getattr(rec.tl, 'last_req', None)
+                if api.is_autograph_artifact(entity):
+                    reason = 'artifact'
+                elif not getattr(options, 'internal_convert_user_code', True):
+                    reason = 'internal_convert_user_code=False'
+                elif conversion.is_unsupported(entity) or (not options.user_requested and conversion.is_allowlisted(entity)):
+                    reason = 'policy'
+                elif last is not None and last.get('fn_id') == id(f) and str(last.get('outcome')).startswith('err'):
+                    reason = 'fallback after ' + last['outcome']
+                else:
+                    reason = None
+                with rec.mutex:
+                    if reason is None:
+                        rec.allow_bad.append({'what': 'allowlist cache: "run as-is" recorded for a convertible function under '
+                                                      'conversion status %s although its conversion did not fail; later '
+                                                      'converted_call requests with these options will skip the conversion'
+                                                      % ag_ctx.control_status_ctx().status.name,
+                                              'function': getattr(f, '__qualname__', repr(f)), 'thread': rec.t(),
+                                              'opt': [opt[0], opt[1], opt[2], list(opt[3])] if len(opt) == 4 else repr(opt)})
+                    else:
+                        try:
+                            rec.allow_ok[(id(f), opt)] = (weakref.ref(f), reason)
+                        except TypeError:
+                            pass
+            except Exception:      # noqa
+                rec.unexpected.append('recorder failure: ' + traceback.format_exc()[-300:])
+            return orig_ca(entity, options)
+
+        conversion.cache_allowlisted = cache_allowlisted
         return tr
 
     def __exit__(self, *a):
         self.transpiler._PythonFnFactory.instantiate = self.orig_inst
         self.api._TRANSPILER = self.old_tr
+        self.conversion.cache_allowlisted = self.orig_cache_allowlisted
+        self.conversion._ALLOWLIST_CACHE = self.old_allow
         with self.rec.mutex:
             self.rec.emit(self.rec.scan(full=True))
 
@@ -1034,19 +1118,41 @@ def do_request(world, entry, opt, route, verdicts, where):
                 d = [l for l in difflib.unified_diff(sr.split('\n'), sg.split('\n'), 'reference', 'served', lineterm='', n=0)][:12]
                 verdicts.append(dict(info, what='generated code differs from cache-less reference conversion', diff=d))
         else:
+            from malt.core import ag_ctx
             a = entry.args[world.pick(len(entry.args))]
-            if route == 'converted_call':
+            status = None
+            if route.startswith('converted_call@'):
+                status = {'D': ag_ctx.Status.DISABLED, 'E': ag_ctx.Status.ENABLED, 'U': ag_ctx.Status.UNSPECIFIED}[route[-1]]
+
+            def under(g):
+                if status is None:
+                    return g
+
+                def run(*xs):
+                    with ag_ctx.ControlStatusCtx(status=status):
+                        return g(*xs)
+                return run
+            if route.startswith('converted_call'):
                 call = lambda *xs: api.converted_call(fn, tuple(xs), None, options=make_opts(opt))   # noqa
             else:
                 call = malt.convert(recursive=r, optional_features=feats, user_requested=u)(fn)
+            rec = getattr(world, 'rec', None)
+            t = rec.t() if rec is not None else -1
+            pre_allowed = rec.allowed(fn, opt) if rec is not None else False
+            n0 = len(rec.requests.get(t, [])) if rec is not None else 0
             # the wrapper passes `self` itself for bound methods
-            got = behave(call, tuple(a), entry.fake)
-            if ref is not None:
-                exp = behave(ref, call_args(entry, a), entry.fake)
-            else:       # documented fallback: an unconvertible function runs as-is
-                exp = behave(fn, tuple(a), entry.fake)
+            got = behave(under(call), tuple(a), entry.fake)
+            as_is = lambda: behave(under(fn), tuple(a), entry.fake)      # noqa
+            if status == ag_ctx.Status.DISABLED or ref is None or pre_allowed:
+                # conversion disabled in this context / documented fallback of an unconvertible function /
+                # legitimately allowlisted earlier: the function runs as-is
+                exp = as_is()
+            else:
+                exp = behave(under(ref), call_args(entry, a), entry.fake)
+                if got != exp and rec is not None and len(rec.requests.get(t, [])) == n0 and rec.allowed(fn, opt):
+                    exp = as_is()      # a legitimate allowlist entry made by another thread raced with this request
             if got != exp:
-                verdicts.append(dict(info, what='converted call differs from cache-less reference conversion',
+                verdicts.append(dict(info, what='converted call differs from the same request against fresh caches',
                                      args=[repr(x)[:60] for x in a], got=repr(got), expected=repr(exp)))
     except Exception as e:       # noqa
         verdicts.append(dict(info, what='request raised %s: %s' % (type(e).__name__, str(e)[:200])))
